@@ -1,5 +1,5 @@
 use std::fs::File;
-use std::io::{BufRead, BufReader};
+use std::io::{BufReader, Read};
 
 use rusty_common::{HasPos, Position};
 use rusty_pc::InputTrait;
@@ -34,14 +34,12 @@ impl TryFrom<File> for StringView {
     type Error = std::io::Error;
 
     fn try_from(value: File) -> Result<Self, Self::Error> {
+        // the file need not be valid UTF-8 (e.g. an old source in a DOS code page):
+        // bytes that do not decode become the replacement character
         let mut reader = BufReader::new(value);
-        let mut buf = String::new();
-        loop {
-            let bytes_read = reader.read_line(&mut buf)?;
-            if bytes_read == 0 {
-                break;
-            }
-        }
+        let mut bytes: Vec<u8> = vec![];
+        reader.read_to_end(&mut bytes)?;
+        let buf = String::from_utf8_lossy(&bytes).into_owned();
         Ok(buf.into())
     }
 }
